@@ -38,6 +38,18 @@ int32 __wrap_psGetEntropy(unsigned char *bytes, uint32 size, void *userPtr)
 int32_t __wrap_psGetPrngLocked(unsigned char *bytes, psSize_t size, void *userPtr)
 { return __wrap_psGetEntropy(bytes, size, userPtr); }
 
+/* the library's trace output goes to stdout and would break the one-line-per-case protocol
+   (link with --wrap=_psTrace,--wrap=_psTraceStr,--wrap=_psTraceInt,--wrap=_psTracePtr,--wrap=psTraceBytes) */
+#ifndef SESS_NO_TRACE_WRAPS      /* define before including sess.h if your harness provides its own */
+void __wrap__psTrace(const char *m) { (void) m; }
+void __wrap__psTraceStr(const char *m, const char *v) { (void) m; (void) v; }
+void __wrap__psTraceInt(const char *m, int32 v) { (void) m; (void) v; }
+void __wrap__psTracePtr(const char *m, const void *v) { (void) m; (void) v; }
+# ifndef SESS_NO_TRACEBYTES_WRAP
+void __wrap_psTraceBytes(const char *t, const unsigned char *p, int l) { (void) t; (void) p; (void) l; }
+# endif
+#endif
+
 /* virtual clock (link with --wrap=psGetTime); `tick <secs>` advances it */
 static long g_vtime = 1592222400;     /* 2020-06-15 12:00:00 UTC, consistent with the pinned calendar */
 int32 __wrap_psGetTime(psTime_t *t, void *userPtr)
